@@ -81,6 +81,17 @@ func (p *shapeParser) ty() (*TShape, error) {
 			}
 			if p.s[p.i] == '}' {
 				p.i++
+				if p.i+1 < len(p.s) && p.s[p.i] == '~' {
+					switch p.s[p.i+1] {
+					case 'i':
+						t.Abstract = "iface"
+					case 'u':
+						t.Abstract = "union"
+					default:
+						return nil, fmt.Errorf("expected ~i or ~u at %d in %q", p.i, p.s)
+					}
+					p.i += 2
+				}
 				return t, nil
 			}
 			st := p.i
